@@ -79,6 +79,7 @@ type FuncCtx struct {
 	mu       sync.Mutex
 	interior map[string]*Ptr
 	gerrIdx  int
+	pendingFacts []string
 	addingAxioms bool
 	axiomDone map[int]bool
 	rootFn   *ssa.Function
